@@ -247,6 +247,21 @@ PROPS = {
         ],
         "assumptions": ["completeness of a unification-based checker is not provable here; the first sentence is decided per certified instance"],
     },
+    "C06": {
+        "level": "proof",
+        "streams": ["C06"],
+        "case_ms": 5000,
+        "rule": "closed accepted programs of type int / bool from the typed generator: normalize_weak_head(t) must print the literal that "
+                "evaluate(t) yields, unify(t,t) and unify(t, step^k t) (k <= 20, both argument orders) must succeed, contexts must be "
+                "restored, and normalize_weak_head must equal the model's whnf; all closed hole-free terms <= 4 (5) nodes whose type the "
+                "verified checker certifies and whose normal form exists, grouped by certified type: every pair (or 4k sampled pairs) in a "
+                "group - unify(a,b) = unify(b,a) = (nf a = nf b) with function annotations erased. Non-trivial: ground program / terminating "
+                "pair; distinct by case text.",
+        "trusted_base": TB_COMMON + [
+            "Spec/Typing.v `conv` is the definitional equality the theorems speak about; Oracle/Infer.v whnf/convb/nf mirror normalize_weak_head/unify on hole-free terms and are tied to the code by this stream",
+        ],
+        "assumptions": ["symmetry and agreement with equality of normal forms are decided on the explored pairs (they need confluence as theorems)"],
+    },
 }
 
 NOT_APPLICABLE = {}
@@ -393,5 +408,15 @@ MANIFEST_TEXT = {
         "design_ref": "DESIGN.md section 4, C05",
         "note": "As C03; completeness is decided per certified instance.",
         "technique": "certified generation (Coq-verified checker) + acceptance check + structural elaboration-identity comparison",
+    },
+    "C06": {
+        "text": "Proved: every evaluation step and every value a term evaluates to is definitionally equal to the term (step_in_conv, "
+                "evaluate_in_conv - the group-unfolding step of the evaluator is shown to agree with the normaliser's whole-group "
+                "substitution); a weak-head normal form is never a group; the conversion test never refutes t = t and its success implies "
+                "definitional equality. Coherence on ground programs (whnf literal = run-time literal), success on reducts, symmetry and "
+                "agreement with normal-form equality are decided on generated programs and on all small well-typed pairs.",
+        "design_ref": "DESIGN.md section 4, C06",
+        "note": "Partial proof: symmetry and normal-form agreement are stated, not proved (confluence).",
+        "technique": "Coq proofs about definitional equality (step_in_conv, convb_refl, whnf_never_let) + differential and metamorphic testing of normalize_weak_head/unify",
     },
 }
